@@ -2,11 +2,13 @@
 \* namespaces, every reference assignment and enumeration order.
 CONSTANTS
   Atomic = TRUE
+  DropDetached = TRUE
   Namespace = {1, 2}
   M = 2
   MaxTs = 2
   Classes = {"ok", "badSig", "rejectLater"}
   MaxBad = 2
+  AllowDetached = FALSE
   Emit = FALSE
   EmitMod = 1
 INIT InitGet
